@@ -778,3 +778,58 @@ def self_spec_all_any():
         return repl
     return [Rule("R2", "$a . iter ( ) . all ( | $x | $$body )", mk("all"), why="all() over a vector in expression position -> loop; the closure body doubles as the invariant"),
             Rule("R2", "$a . iter ( ) . any ( | $x | $$body )", mk("any"), why="any() over a vector in expression position -> loop; the closure body doubles as the invariant")]
+
+
+# ---------------------------------------------------------------------------------------------------------------------
+# R9: `P1 | P2 if G => B` (Verus: or-pattern with a guard is not supported) -> `P1 if G => B, P2 if G => B`.  Rust tries the guard for each
+# alternative in order and moves on to the next alternative / arm when it fails, which is what the two consecutive arms do.
+def split_or_guard_arms(toks, log):
+    from .extract import split_arms
+    out = list(toks)
+    for _ in range(60):
+        changed = False
+        i = 0
+        while i < len(out):
+            if out[i] != "match":
+                i += 1; continue
+            j = i + 1
+            while j < len(out) and out[j] != "{":
+                if out[j] in ("(", "["):
+                    j = match_close(out, j)
+                j += 1
+            if j >= len(out):
+                break
+            c = match_close(out, j)
+            arms = split_arms(out[j + 1:c])
+            new, did = [], False
+            for pat, body in arms:
+                d, g = 0, None
+                for q, t in enumerate(pat):
+                    if t in ("(", "[", "{"): d += 1
+                    elif t in (")", "]", "}"): d -= 1
+                    elif t == "if" and d == 0:
+                        g = q; break
+                alts, cur, d = [], [], 0
+                for t in (pat[:g] if g is not None else pat):
+                    if t in ("(", "[", "{"): d += 1
+                    elif t in (")", "]", "}"): d -= 1
+                    if t == "|" and d == 0:
+                        alts.append(cur); cur = []
+                    else:
+                        cur.append(t)
+                alts.append(cur)
+                if g is not None and len(alts) > 1:
+                    did = True
+                    for a in alts:
+                        new += [*a, *pat[g:], "=>", *body, ","]
+                else:
+                    new += [*pat, "=>", *body, ","]
+            if did:
+                log.append(("R9", "P1 | P2 if G => B", "P1 if G => B, P2 if G => B", "or-pattern with a guard split into consecutive arms"))
+                out = out[:j + 1] + new + out[c:]
+                changed = True
+                break
+            i = j + 1
+        if not changed:
+            return out
+    return out
